@@ -22,6 +22,7 @@ const (
 	fBNeg  = "C13-bare-negation"                     // {{ !x }} / :a="!x" print nothing
 	fShowN = "C13-vshow-negation-nonbool"            // v-show="!z" hides for falsy non-bool z while v-if="!z" shows
 	fQVar  = "C13-quoted-arg-reinterpreted"          // f("a") passes the value of variable a; " x " -> "x"; "'q'" -> q
+	fTagEl = "C13-tagged-field-of-slice-element"     // team[0].age + 1 fails where team is a slice of structs with JSON tags
 	fNegEr = "C13-func-error-after-leading-negation" // {{ !t || fail(a) }} prints a value instead of failing
 	fBoolN = "C13-arg-variable-named-like-bool"      // f(t) / f(f): a variable named t or f is read as the literal true / false
 )
@@ -30,6 +31,15 @@ type gen struct {
 	rec  *ev.Rec
 	open map[string]bool
 	fn   bool // the case under construction uses fnEnv (variables named like functions)
+	cat  *catalog
+}
+
+// c returns the path catalogue of the environment under construction.
+func (g *gen) c() *catalog {
+	if g.cat != nil {
+		return g.cat
+	}
+	return baseCat
 }
 
 // paths returns the catalogue of typ for the environment under construction: in fnEnv the
@@ -44,7 +54,7 @@ func (g *gen) paths(t *rapid.T, base, fnNamed []string) []string {
 func newGen(rec *ev.Rec) *gen {
 	f := kf.Load()
 	g := &gen{rec: rec, open: map[string]bool{}}
-	for _, id := range []string{fCond, fNest, fErrC, fBNeg, fShowN, fQVar, fBoolN, fNegEr} {
+	for _, id := range []string{fCond, fNest, fErrC, fBNeg, fShowN, fQVar, fBoolN, fNegEr, fTagEl} {
 		g.open[id] = f.Open(id)
 	}
 	return g
@@ -159,17 +169,17 @@ func (g *gen) leaf(t *rapid.T, typ string, litOK, callArg bool) Expr {
 	}
 	switch typ {
 	case "int":
-		return Expr{K: "path", V: pick(t, "ipath", g.paths(t, intPaths, fnIntPaths))}
+		return Expr{K: "path", V: pick(t, "ipath", g.paths(t, g.c().ints, fnIntPaths))}
 	case "float":
-		return Expr{K: "path", V: pick(t, "fpath", g.argPaths(floatPaths, callArg))}
+		return Expr{K: "path", V: pick(t, "fpath", g.argPaths(g.c().floats, callArg))}
 	case "string":
-		return Expr{K: "path", V: pick(t, "spath", g.paths(t, stringPaths, fnStringPaths))}
+		return Expr{K: "path", V: pick(t, "spath", g.paths(t, g.c().strings, fnStringPaths))}
 	case "list":
-		return Expr{K: "path", V: pick(t, "lpath", g.paths(t, listPaths, fnListPaths))}
+		return Expr{K: "path", V: pick(t, "lpath", g.paths(t, g.c().lists, fnListPaths))}
 	case "map":
-		return Expr{K: "path", V: pick(t, "mpath", mapPaths)}
+		return Expr{K: "path", V: pick(t, "mpath", g.c().maps)}
 	}
-	return Expr{K: "path", V: pick(t, "bpath", g.argPaths(boolPaths, callArg))}
+	return Expr{K: "path", V: pick(t, "bpath", g.argPaths(g.c().bools, callArg))}
 }
 
 func bin(op string, l, r Expr) Expr { return Expr{K: "bin", V: op, A: []Expr{l, r}} }
@@ -203,15 +213,15 @@ func (g *gen) callExpr(t *rapid.T, typ string, nonShared, top bool) Expr {
 	for _, pt := range c[1:] {
 		switch pt {
 		case "numstr":
-			e.A = append(e.A, Expr{K: "path", V: pick(t, "numstr", append([]string{"num"}, zeroLedStrs...))})
+			e.A = append(e.A, Expr{K: "path", V: pick(t, "numstr", g.c().numstr)})
 		case "fracfloat": // fractional in every environment (the text of 10.0 is ambiguous)
 			if rapid.IntRange(0, 2).Draw(t, "fraclit") == 0 {
 				e.A = append(e.A, Expr{K: "float", V: pick(t, "fracl", []string{"0.5", "1.5", "2.5", "0.25"})})
 			} else {
-				e.A = append(e.A, Expr{K: "path", V: pick(t, "fracp", g.argPaths([]string{"f", "m.rate"}, top))})
+				e.A = append(e.A, Expr{K: "path", V: pick(t, "fracp", g.argPaths(g.c().frac, top))})
 			}
 		case "lowstr":
-			e.A = append(e.A, Expr{K: "path", V: pick(t, "lowpath", []string{"m.inner.s", "st.In.S", "us[1].name"})})
+			e.A = append(e.A, Expr{K: "path", V: pick(t, "lowpath", g.c().lowstr)})
 		default:
 			e.A = append(e.A, g.leaf(t, pt, true, top))
 		}
@@ -250,7 +260,7 @@ func (g *gen) expr(t *rapid.T, env map[string]any, typ string, d int, top bool) 
 			lv, _ := eval(l, env)
 			li, ok := lv.(int)
 			if !ok || li < 0 {
-				l = Expr{K: "path", V: "xs[2]"} // >= 0 in every environment
+				l = Expr{K: "path", V: g.c().nonneg} // >= 0 in every environment
 			}
 			rv, _ := eval(r, env)
 			ri, ok := rv.(int)
@@ -267,9 +277,9 @@ func (g *gen) expr(t *rapid.T, env map[string]any, typ string, d int, top bool) 
 			var r Expr
 			switch rapid.IntRange(0, 3).Draw(t, "divkind") {
 			case 0:
-				r = Expr{K: "path", V: pick(t, "divpath", nonzeroIntPaths)}
+				r = Expr{K: "path", V: pick(t, "divpath", g.c().nonzeroInts)}
 			case 1:
-				r = Expr{K: "path", V: pick(t, "divfpath", nonzeroFloatPaths)}
+				r = Expr{K: "path", V: pick(t, "divfpath", g.c().nonzeroFloats)}
 			case 2:
 				r = Expr{K: "int", V: pick(t, "divlit", posIntLits)}
 			default:
@@ -292,6 +302,10 @@ func (g *gen) expr(t *rapid.T, env map[string]any, typ string, d int, top bool) 
 	switch rapid.IntRange(0, 10).Draw(t, "boolprod") {
 	case 10:
 		// a string with blanks against a literal spelled with the same or different blanks
+		if g.cat != nil {
+			// the blank strings live in the map environments only
+			return bin(pick(t, "beq", []string{"==", "!="}), sub("string"), sub("string"))
+		}
 		l := Expr{K: "path", V: pick(t, "blankpath", blankPaths)}
 		r := Expr{K: "str", V: pick(t, "blanklit", blankLits), Q: pick(t, "quote", []string{"d", "s"})}
 		if rapid.IntRange(0, 1).Draw(t, "hit") == 0 {
@@ -399,14 +413,17 @@ func (g *gen) genExprCase0(t *rapid.T) Case {
 	if rapid.IntRange(0, 19).Draw(t, "ownpath") == 0 {
 		return pathCase(rapid.IntRange(0, nEnvs-1).Draw(t, "env"), pick(t, "ownpath", ownPaths))
 	}
-	envID := rapid.IntRange(0, fnEnv).Draw(t, "env")
+	envID := rapid.IntRange(0, structEnv).Draw(t, "env")
 	env := envOf(envID)
 	g.fn = envID == fnEnv
-	defer func() { g.fn = false }()
+	if envID == structEnv {
+		g.cat = g.structCatalog()
+	}
+	defer func() { g.fn, g.cat = false, nil }()
 	if rapid.IntRange(0, 14).Draw(t, "negfam") == 0 {
 		// negation of a non-bool path (documented as v-if="!show"): truthiness negated; only the
 		// agreement of the condition positions is asserted
-		np := append(append(append([]string{}, intPaths...), stringPaths...), floatPaths...)
+		np := append(append(append([]string{}, g.c().ints...), g.c().strings...), g.c().floats...)
 		if g.fn {
 			np = append(append([]string{}, fnIntPaths...), fnStringPaths...)
 		}
@@ -928,6 +945,11 @@ func classify(c Case) (bool, []string) {
 					}
 				}
 				switch {
+				case c.Env == structEnv:
+					k = "A:path-struct-root"
+					if strings.HasPrefix(x.V, "editor.") || strings.HasPrefix(x.V, "team[2]") {
+						k = "A:path-struct-root second reference to a shared pointer"
+					}
 				case contains(blankPaths, x.V):
 					k = "A:path-string-with-blanks"
 				case strings.Contains(x.V, `["`) || strings.Contains(x.V, `['`):
